@@ -47,16 +47,35 @@ class Lane(LaneBase):
     TRUSTED = ['networkx.is_directed_acyclic_graph agrees with the definitional model (measured here)']
 
     def cases(self, tier, rng):
-        yield from histories.gen_cases(tier, rng, 300, 5000)
-        # constructor inputs
-        nmax = 3 if tier == 'quick' else 4
-        for n in range(1, nmax + 1):
+        yield from histories.gen_cases(tier, rng, 1200, 8000)
+        # constructor inputs: every binary matrix n <= 4 (n = 4 in the quick tier through the matrix route only)
+        for n in range(1, 5):
             cells = [(i, j) for i in range(n) for j in range(n) if i != j]
             for bits in itertools.product((0, 1), repeat=len(cells)):
                 m = [[0] * n for _ in range(n)]
                 for (i, j), b in zip(cells, bits):
                     m[i][j] = b
-                yield {'ctor': 'matrix', 'rows': m}
+                yield {'ctor': 'matrix', 'rows': m, 'all_routes': n <= 3 or tier == 'thorough'}
+        # graphs holding a directed cycle entered with validate=False (both classes; time-series: inside one lag slice,
+        # since no edge may point backwards in time), plus extra edges; is_dag() must see the cycle, also after copy()
+        k = 150 if tier == 'quick' else 2000
+        for i in range(k):
+            cls = 'ts' if i % 2 else 'plain'
+            size = rng.randint(3, 4)
+            if cls == 'ts':
+                lag = rng.choice([-2, -1, 0, 1])
+                names = [histories.ts_name(v, lag) for v in ['X', 'Y', 'Z', 'a b'][:size]]
+                others = [histories.ts_name(v, l) for v in ['X', 'Y', 'W'] for l in (-3, 2)]
+            else:
+                names = ['a', 'b', 'c', 'd'][:size]
+                others = ['e', 'x y']
+            rng.shuffle(names)
+            ops = [['add_edge', names[j], names[(j + 1) % size], '->', {}, False] for j in range(size)]
+            for _ in range(rng.randint(0, 3)):
+                a, b = rng.choice(names + others), rng.choice(names + others)
+                ops.append(['add_edge', a, b, '->' if rng.random() < 0.8 else '--', {}, False])
+            rng.shuffle(ops)
+            yield {'cls': cls, 'gmeta': {}, 'ops': ops, 'warm': rng.random() < 0.5, 'copy': True}
 
     def run_case(self, case):
         if 'ctor' in case:
@@ -90,6 +109,16 @@ class Lane(LaneBase):
                     oracle.append(f'is_dag() = {g.is_dag()} but brute force says {isdag} after {op[0]}')
                 elif all_validated and cyc:
                     oracle.append(f'validated history holds a directed cycle after {op[0]} ({r})')
+        if case.get('copy') and not oracle:
+            for name, f in (('copy()', g.copy), ('from_dict(to_dict(), validate=False)',
+                                                   lambda: type(g).from_dict(g.to_dict(), validate=False))):
+                try:
+                    h = f()
+                    truth = dag_truth(h)[0]
+                    if h.is_dag() != truth:
+                        oracle.append(f'is_dag() = {h.is_dag()} on {name} of a graph whose brute-force answer is {truth}')
+                except Exception as e:  # noqa: BLE001
+                    oracle.append(f'{name} raised {type(e).__name__}')
         key = hashlib.sha1('\n'.join(out).encode()).hexdigest()
         return {'lines': lines, 'impl': out, 'oracle': oracle, 'nontrivial': nontrivial, 'key': key, 'tags': sorted(tags)}
 
@@ -106,7 +135,7 @@ class Lane(LaneBase):
         oracle = []
         for validate in (True, False):
             routes = [('from_adjacency_matrix', lambda: CausalGraph.from_adjacency_matrix(numpy.array(rows), names, validate=validate))]
-            if all(rows[i][j] == 0 or rows[j][i] == 0 for i in range(n) for j in range(n)):
+            if case.get('all_routes', True) and all(rows[i][j] == 0 or rows[j][i] == 0 for i in range(n) for j in range(n)):
                 dg = networkx.DiGraph()
                 dg.add_nodes_from(names)
                 dg.add_edges_from(directed)
